@@ -1,18 +1,55 @@
 """C13 (part): the handle manager hdf/src/atom.c -- ids never alias, stale ids are rejected.
-The property itself (prop("C13")) is owned by another author; these obligations only list it."""
+The property itself (prop("C13")) is owned by another author; these obligations only list it.
+
+Partitions (exhaustive, so that a finding sits in exactly one obligation and the rest stays green):
+  *_g8     group == ANIDGROUP (8): MAKE_ATOM evaluates 8 << 28 in a signed int (UB, cbmc/UBSan report it)
+  *_oom    the allocator refuses (named ghost g_oom_at, injected natively too): HAIget_atom_node
+           memset()s NULL; HAinit_group frees the record the group table still refers to
+"""
 from .core import ob
 
+CAD = dict(flags=["--sat-solver", "cadical"], backend="cbmc SAT (cadical)")  # minisat2: > 200 s on these
 AT = dict(unit="atom_u.c", file="hdf/src/atom.c", cex_unwind=6,
-          trusted=["HEclear (herr.c): no effect on atom state", "HEpush/HEreport: no effect on atom state"])
-CHAIN = "bucket chain of the probed id <= 3 nodes (every other bucket/group arbitrary)"
+          trusted=["HEclear/HEpush/HEreport (herr.c): no effect on atom state"], **CAD)
+CHAIN = "bucket chain of the probed id <= 3 nodes (all other buckets/groups arbitrary)"
 
-# id codec: loop free, all 2^32 ids / all groups / all power-of-two hash sizes <= 2^28
+# --- id codec: loop free; all groups, all counters < 2^28, all power-of-two hash sizes <= 2^28
 ob("atom_codec", ["C13"], entry="h_codec", enforce=None, **AT)
+# group 8: the functional codec clauses; the signed-shift UB of MAKE_ATOM(8,i) itself is carried by
+# HAregister_atom_g8 (real code, atom.c:266), here it would only be a macro expanded in the harness
+ob("atom_codec_g8", ["C13"], entry="h_codec", enforce=None, defines=["H4V_G8"],
+   **dict(AT, flags=CAD["flags"] + ["--no-signed-overflow-check"]))
 ob("HAatom_group", ["C13"], entry="h_HAatom_group", enforce="HAatom_group", **AT)
-# uncached and cached lookup: chain walk bounded by the modelled chain length
+
+# --- issue of an id: loop free, nothing behind the bucket head is looked at => proved
+ob("HAregister_atom_reuse", ["C13"], entry="h_HAregister_atom", enforce="HAregister_atom",
+   defines=["H4V_FL_NONEMPTY"], **AT)
+ob("HAregister_atom_alloc", ["C13"], entry="h_HAregister_atom", enforce="HAregister_atom",
+   defines=["H4V_FL_EMPTY"], **AT)
+ob("HAregister_atom_oom", ["C13"], entry="h_HAregister_atom", enforce="HAregister_atom",
+   defines=["H4V_FL_EMPTY", "H4V_OOM"], **AT)
+ob("HAregister_atom_g8", ["C13"], entry="h_HAregister_atom", enforce="HAregister_atom",
+   defines=["H4V_G8", "H4V_FL_NONEMPTY"], **AT)
+# the full bucket/cache invariant is preserved (new id lands in the modelled bucket)
+ob("HAregister_atom_wf", ["C13"], entry="h_HAregister_atom", enforce="HAregister_atom", mode="bounded",
+   bound="target bucket chain <= 2 nodes before, node taken from the free list", tier="thorough",
+   defines=["H4V_FL_NONEMPTY", "H4V_REG_WF"], **AT)
+
+# --- lookup: chain walk bounded by the modelled chain; the cache part is loop free
 ob("HAIfind_atom", ["C13"], entry="h_HAIfind_atom", enforce="HAIfind_atom", mode="bounded", bound=CHAIN,
    unwind=5, **AT)
 ob("HAatom_object", ["C13"], entry="h_HAatom_object", enforce="HAatom_object", mode="bounded", bound=CHAIN,
    unwind=5, **AT)
+# --- release: chain walk bounded, 4-entry cache loop fully unwound
 ob("HAremove_atom", ["C13"], entry="h_HAremove_atom", enforce="HAremove_atom", mode="bounded", bound=CHAIN,
    unwind=5, **AT)
+# --- group end: only the 4-entry cache loop
+ob("HAdestroy_group", ["C13"], entry="h_HAdestroy_group", enforce="HAdestroy_group", mode="proved-finite",
+   bound="ATOM_CACHE_SIZE = 4", unwind=5, **AT)
+# --- group start
+ob("HAinit_group", ["C13"], entry="h_HAinit_group", enforce="HAinit_group", **AT)
+ob("HAinit_group_oom", ["C13"], entry="h_HAinit_group", enforce="HAinit_group", defines=["H4V_OOM"], **AT)
+# --- search by object (Hopen's "is this path already open"): whole table modelled
+ob("HAsearch_atom", ["C13"], entry="h_HAsearch_atom", enforce="HAsearch_atom", mode="bounded",
+   bound="hash_size <= 2, chains <= 3 and <= 1 nodes, comparison function = pointer equality", unwind=5,
+   defines=["H4V_HS_CAP=2u"], **AT)
